@@ -56,8 +56,10 @@ class C16Machine(Machine):
            "target_column_last", "str_path", "pd_target_column", "later_row_also_fails",
            "result_missing_empty_cell", "target_cell_changed", "pd_missing_is_na", "pd_strict_raised",
            "zero_rows", "fault_in_other_column", "ambiguous_mode_converted_cell", "file_larger_than_8k", "table_ge_40_rows",
-           "eol_crlf", "eol_lf", "eol_mixed", "no_final_line_terminator", "sep_explicit_tab", "relative_path", "file_name_varied", "file_name_with_temp_or_backup_suffix", "pd_target_is_source", "pd_dtype_object", "pd_dtype_string", "pd_dtype_category", "pd_category_with_unused_categories", "pd_int_labels", "pd_int_labels_not_positions", "file_flags_left_to_defaults", "pd_flags_left_to_defaults", "cell_convertible_only_after_extension", "fault_in_header", "cell_with_unicode_line_boundary",
-           "pd_index_custom", "pd_index_reversed", "pd_index_offset", "pd_index_duplicated", "pd_index_sliced"]
+           "eol_crlf", "eol_lf", "eol_mixed", "no_final_line_terminator", "sep_explicit_tab", "relative_path", "file_name_varied", "file_name_with_temp_or_backup_suffix", "same_path_again_after_failure",
+           "same_path_again_after_success", "pd_target_is_source", "pd_dtype_object", "pd_dtype_string", "pd_dtype_category", "pd_category_with_unused_categories", "pd_int_labels", "pd_int_labels_not_positions", "file_flags_left_to_defaults", "pd_flags_left_to_defaults", "cell_convertible_only_after_extension", "fault_in_header", "cell_with_unicode_line_boundary",
+           "pd_index_custom", "pd_index_reversed", "pd_index_offset", "pd_index_duplicated", "pd_index_sliced",
+           "pd_index_named", "pd_index_multi", "pd_index_shuffled_dup"]
     )
 
     @classmethod
@@ -148,7 +150,8 @@ class C16Machine(Machine):
         compressing = func in ("file_compress", "pd_compress", "pd_standardize_uri")
         if func == "pd_standardize_prefix":
             return {"canon": r.prefix, "syn": rng.choice(r.prefix_synonyms or [r.prefix]), "unknown": "zz",
-                    "both": r.prefix, "empty": "", "nodelim": "zz", "other_kind": r.uri_prefix}[cls_]
+                    "both": r.prefix, "empty": "", "nodelim": "zz", "other_kind": r.uri_prefix,
+                    "awkward": rng.choice([r.prefix + "\n", "nan", "NA", "None", r.prefix + " "])}[cls_]
         if cls_ == "canon":
             return (r.uri_prefix + ident) if compressing else (r.prefix + d + ident)
         if cls_ == "syn":
@@ -168,6 +171,12 @@ class C16Machine(Machine):
             return ""
         if cls_ == "nodelim":
             return "nodelimiterhere"
+        if cls_ == "awkward":
+            # a convertible cell whose identifier needs CSV quoting or ends in a line break, or a cell
+            # that data tools read as a missing value
+            base = (r.uri_prefix + "1") if compressing else (r.prefix + d + "1")
+            return rng.choice([base + "\n", base + "\r\n", base + "\"q", base + "\tx", base + ",x", base + " ",
+                               "nan", "NA", "None", "<NA>", "NULL"])
         return ""
 
     def _table(self, rng, func):
@@ -179,7 +188,7 @@ class C16Machine(Machine):
             row = []
             for c in range(width):
                 if c == col:
-                    cls_ = rng.choice(["canon", "canon", "syn", "unknown", "both", "empty", "nodelim", "other_kind"])
+                    cls_ = rng.choice(["canon", "canon", "syn", "unknown", "both", "empty", "nodelim", "other_kind", "awkward"])
                     row.append(self._cell(rng, func, cls_))
                 else:
                     cell = rng.choice(NASTY) if rng.random() < cfg["p_nasty"] else "v" + str(rng.randint(0, 9))
@@ -240,7 +249,10 @@ class C16Machine(Machine):
             while self._raises(func, row[col], st, pt, amb) and tries < 5:
                 row[col] = self._safe_cell(rng, func)
                 tries += 1
-        plan.append(dict(copy.deepcopy(base), rows=ff_rows))
+        first_op = dict(copy.deepcopy(base), rows=ff_rows)
+        if rng.random() < 0.3:
+            first_op["then"] = {"strict": False, "passthrough": rng.random() < 0.5}
+        plan.append(first_op)
         # fault-injecting configuration: every row position k
         kinds = list(cfg["fault_kinds"])
         for k in range(len(rows)):
@@ -278,6 +290,9 @@ class C16Machine(Machine):
                 fcol = rng.randrange(len(frows[k]))
                 frows[k][fcol] = "L" * (csv.field_size_limit() + 1 + rng.randint(0, 3))
             op["fault"] = {"kind": kind, "row": k, "col": fcol}
+            if kind in ("strict_unconvertible", "no_delimiter") and rng.random() < 0.4:
+                # retry on the same path after the failure, with more lenient flags
+                op["then"] = {"strict": False, "passthrough": rng.random() < 0.5, "func": func, "ambiguous": amb}
             plan.append(op)
         if cfg["header"] and hdr:
             # a reader-level fault in the HEADER row (nothing has been converted yet: still atomic)
@@ -316,7 +331,8 @@ class C16Machine(Machine):
                          "ambiguous": pamb, "omit_defaults": rng.random() < 0.5,
                          "dtype": rng.choice(["default", "default", "object", "string", "category"]),
                          "unused_categories": rng.random() < 0.5,
-                         "index": rng.choice(["range", "range", "range", "custom", "reversed", "offset", "duplicated", "sliced"])})
+                         "index": rng.choice(["range", "range", "range", "custom", "reversed", "offset", "duplicated", "sliced",
+                                              "named", "multi", "shuffled_dup"])})
         plan.extend(pd_ops)
         if cfg.get("extend") and self.conv.records:
             r0 = rng.choice(self.conv.records)
@@ -371,6 +387,8 @@ class C16Machine(Machine):
                     yield dict(copy.deepcopy(op), path_kind="path")
                 if op.get("file_name"):
                     yield dict(copy.deepcopy(op), file_name=None)
+                if op.get("then"):
+                    yield dict(copy.deepcopy(op), then=None)
                 if op.get("eol", "crlf") != "crlf":
                     yield dict(copy.deepcopy(op), eol="crlf")
                 if not op.get("final_eol", True):
@@ -456,15 +474,43 @@ class C16Machine(Machine):
         return path, data
 
     def _file(self, op):
+        hdr = op["hdr"]
+        if op["header"] and (hdr is None or len(hdr) == 0):
+            return {"skipped": "zero-cell header is not a table with a header row"}
+        path, before = self._materialise(op)
+        fdir = os.path.join(self.dir, f"d{self.file_no}")
+        try:
+            out = self._file_core(op, path, before)
+            nxt = op.get("then")
+            if nxt and os.path.exists(path):
+                # a second call on the SAME path (retry after a failure, or converting a converted file
+                # again): judged against the table that is on disk right before it
+                with open(path, "rb") as f:
+                    now = f.read()
+                try:
+                    table = list(csv.reader(io.StringIO(now.decode("utf-8"), newline=""), delimiter=op["sep"] or "\t"))
+                except Exception:  # noqa: BLE001 - e.g. the undecodable-bytes fault is still in the file
+                    table = None
+                if table is not None and (not op["header"] or table):
+                    op2 = dict(copy.deepcopy(op), **nxt)
+                    op2["then"] = None
+                    op2["fault"] = None
+                    op2["hdr"] = table[0] if op["header"] else None
+                    op2["rows"] = table[1:] if op["header"] else table
+                    self.probe("same_path_again_after_" + ("failure" if out.get("raised") else "success"))
+                    out2 = self._file_core(op2, path, now)
+                    out = {"first": out, "second": out2}
+            return out
+        finally:
+            shutil.rmtree(fdir, ignore_errors=True)
+
+    def _file_core(self, op, path, before):
         conv = self.conv
         func = op["func"]
         site = func
         col = op["column"]
         st, pt, amb = op["strict"], op["passthrough"], op["ambiguous"]
         hdr, rows = op["hdr"], op["rows"]
-        if op["header"] and (hdr is None or len(hdr) == 0):
-            return {"skipped": "zero-cell header is not a table with a header row"}
-        path, before = self._materialise(op)
         scalar = scalar_for(conv, func, amb)
         limit = csv.field_size_limit()
         # harness self-check: the bytes written must denote exactly the intended table
@@ -523,7 +569,6 @@ class C16Machine(Machine):
                 after = f.read()
         except FileNotFoundError:
             after = None        # the file is gone: the worst way of not being what it was
-        shutil.rmtree(os.path.join(self.dir, f"d{self.file_no}"), ignore_errors=True)
 
         self.event(func)
         self.probe("header" if op["header"] else "no_header")
@@ -581,7 +626,30 @@ class C16Machine(Machine):
             return {"raised": type(err).__name__, "why": why, "row": first_fail}
 
         # returned normally
-        if first_fail is not None:
+        tolerant = False
+        if first_fail is not None and why in ("blank_row", "oversize_field") and not reader_level:
+            # not a cell that the scalar method rejects: a library that skips blank lines, or that lifts the
+            # csv field limit, may go on - then the rest of the table must still be right
+            tolerant = True
+            expected_rows = []
+            for i, row in enumerate(rows):
+                if not row:
+                    expected_rows.append(([], None, ""))
+                    continue
+                if len(row) <= col:
+                    tolerant = False
+                    break
+                try:
+                    v = scalar(row[col], strict=st, passthrough=pt)
+                except Exception:  # noqa: BLE001
+                    tolerant = False
+                    break
+                new = list(row)
+                new[col] = v or ""
+                expected_rows.append((new, v, row[col]))
+            if tolerant:
+                self.event("no_raise_on_" + why + "_tolerated")
+        if first_fail is not None and not tolerant:
             raise Violation(PROP, "missing_raise", site,
                             {"why": why, "first_failing_row": first_fail, "op": _short(op)})
         try:
@@ -590,6 +658,10 @@ class C16Machine(Machine):
         except Exception as e:  # noqa: BLE001
             raise Violation(PROP, "output_unreadable", site, {"exception": type(e).__name__, "op": _short(op)})
         want = ([list(hdr)] if op["header"] else []) + [new for new, _, _ in expected_rows]
+        if tolerant and got != want:
+            want_without_blanks = [w for w in want if w]
+            if got == want_without_blanks:
+                want = want_without_blanks         # blank lines dropped: the table's rows are all there
         if got != want:
             kind = "table_mismatch"
             detail = {"op": _short(op)}
@@ -668,6 +740,12 @@ class C16Machine(Machine):
         n = len(rows)
         index = {"custom": [f"r{i}" for i in range(n)], "reversed": list(range(n - 1, -1, -1)),
                  "offset": list(range(5, 5 + n)), "duplicated": [i // 2 for i in range(n)]}.get(ik)
+        if ik == "named":
+            index = pd.Index([f"s{i}" for i in range(n)], name="sample")
+        elif ik == "multi":
+            index = pd.MultiIndex.from_tuples([(i // 2, f"k{i}") for i in range(n)], names=["grp", None]) if n else None
+        elif ik == "shuffled_dup":
+            index = [(i * 7) % max(1, n // 2 + 1) for i in range(n)]          # duplicated, not monotonic
         if ik == "sliced":
             # a frame that is a slice of a longer one: its index starts at 2
             pad = [[""] * len(names)] * 2
@@ -732,7 +810,7 @@ class C16Machine(Machine):
         want_cols = list(names) + ([target] if (target is not None and target not in names) else [])
         if list(df.columns) != want_cols:
             raise Violation(PROP, "columns_changed", site, {"got": [str(x) for x in df.columns], "want": [str(x) for x in want_cols]})
-        if list(df.index) != list(orig.index) or len(df) != len(rows):
+        if list(df.index) != list(orig.index) or len(df) != len(rows) or list(df.index.names) != list(orig.index.names):
             raise Violation(PROP, "row_order_or_index_changed", site, {"op": _short(op)})
         for name in names:
             if name == out_col:
